@@ -65,9 +65,14 @@ func c01RpcRun(r *zsim.Run) {
 		_, err := UnaryBreakerInterceptor(context.Background(), nil, &grpc.UnaryServerInfo{FullMethod: method}, func(context.Context, interface{}) (interface{}, error) { return nil, h() })
 		return err
 	}
-	r.Logf("rpc breaker integration stream=%v", stream)
+	// most runs stay with one benign code: a code wrongly counted as a failure then has nothing to hide behind
+	focus, focused := benign[o.Intn(len(benign))], o.Intn(3) > 0
+	r.Logf("rpc breaker integration stream=%v focus=%v (%v)", stream, focus, focused)
 	for i := 0; i < 200; i++ {
 		c := benign[o.Intn(len(benign))]
+		if focused {
+			c = focus
+		}
 		n := ran
 		err := call(c)
 		if err == breaker.ErrServiceUnavailable || ran == n {
